@@ -37,7 +37,7 @@ def length(rng, maxn=12):
         return 2
     if r < 0.36:
         return 3
-    return rng.randint(4, maxn)
+    return rng.randint(min(4, maxn), maxn)
 
 
 def times(rng, n, regular=None, start=None):
